@@ -287,6 +287,179 @@ func decodeShape(fd *ast.FuncDecl) (string, bool) {
 	return reader, true
 }
 
+// ---- allocation sites (C19) -------------------------------------------------------------------
+
+// funcKey names a function or method: "Name" or "Recv.Name"; functions of internal/fp are prefixed "fp.".
+func funcKey(prefix string, fd *ast.FuncDecl) string {
+	name := fd.Name.Name
+	if fd.Recv != nil && len(fd.Recv.List) > 0 {
+		t := fd.Recv.List[0].Type
+		if st, ok := t.(*ast.StarExpr); ok {
+			t = st.X
+		}
+		if id, ok := t.(*ast.Ident); ok {
+			name = id.Name + "." + name
+		}
+	}
+	return prefix + name
+}
+
+type funcInfo struct {
+	sites []string // syntactic constructs that may allocate
+	calls []string // callees (function keys)
+}
+
+// allocInfo walks a function body and records constructs that may allocate and the functions it calls.
+func allocInfo(prefix string, fd *ast.FuncDecl, known map[string]bool) funcInfo {
+	var fi funcInfo
+	seen := map[string]bool{}
+	addCall := func(k string) {
+		if !seen[k] {
+			seen[k] = true
+			fi.calls = append(fi.calls, k)
+		}
+	}
+	ast.Inspect(fd.Body, func(n ast.Node) bool {
+		switch x := n.(type) {
+		case *ast.CallExpr:
+			switch f := x.Fun.(type) {
+			case *ast.Ident:
+				switch f.Name {
+				case "make", "new", "append":
+					fi.sites = append(fi.sites, f.Name+":"+src(x))
+				case "string":
+					fi.sites = append(fi.sites, "conv:"+src(x))
+				default:
+					addCall(prefix + f.Name)
+				}
+			case *ast.ArrayType: // []byte(x) and the like
+				fi.sites = append(fi.sites, "conv:"+src(x))
+			case *ast.SelectorExpr:
+				if id, ok := f.X.(*ast.Ident); ok {
+					switch id.Name {
+					case "fp":
+						addCall("fp." + f.Sel.Name)
+					case "fmt", "errors", "strings", "bytes", "strconv", "json", "sort":
+						fi.sites = append(fi.sites, "lib:"+src(x.Fun))
+					default:
+						// method call on a value: record every method of that name we know
+						// (calls of the caller-supplied handler are not followed: C19 assumes it does not allocate)
+						if f.Sel.Name != "HandleArrayValue" && f.Sel.Name != "HandleObjectValue" {
+							for k := range known {
+								if strings.HasSuffix(k, "."+f.Sel.Name) {
+									addCall(k)
+								}
+							}
+						}
+					}
+				} else if f.Sel.Name != "HandleArrayValue" && f.Sel.Name != "HandleObjectValue" {
+					for k := range known {
+						if strings.HasSuffix(k, "."+f.Sel.Name) {
+							addCall(k)
+						}
+					}
+				}
+			}
+		case *ast.CompositeLit:
+			fi.sites = append(fi.sites, "lit:"+src(x.Type))
+		case *ast.FuncLit:
+			fi.sites = append(fi.sites, "closure")
+			return false
+		case *ast.GoStmt:
+			fi.sites = append(fi.sites, "go")
+		case *ast.DeferStmt:
+			fi.sites = append(fi.sites, "defer")
+		case *ast.UnaryExpr:
+			if x.Op == token.AND {
+				if _, ok := x.X.(*ast.CompositeLit); ok {
+					fi.sites = append(fi.sites, "addr-lit")
+				}
+			}
+		}
+		return true
+	})
+	sort.Strings(fi.calls)
+	return fi
+}
+
+// zeroAllocRoots are the entry points C19 speaks about.
+var zeroAllocRoots = []string{"ReadUint64", "ReadUint32", "ReadUint", "ReadInt64", "ReadInt32", "ReadInt", "ReadFloat64", "ReadBool",
+	"ReadNull", "NextToken", "NextTokenType", "DecodeBool", "DecodeInt", "DecodeInt32", "DecodeInt64", "DecodeUint", "DecodeUint32",
+	"DecodeUint64", "DecodeFloat64", "SkipValue", "SkipValueFast", "Valid", "HandleArrayValues", "HandleObjectValues",
+	"ReadStringBytes", "UnescapeStringContent"}
+
+func allocFacts(repo string) (reach []string, sites []string, err error) {
+	infos := map[string]funcInfo{}
+	type src2 struct{ dir, prefix string }
+	var decls []struct {
+		prefix string
+		fd     *ast.FuncDecl
+	}
+	known := map[string]bool{}
+	for _, s := range []src2{{repo, ""}, {filepath.Join(repo, "internal", "fp"), "fp."}} {
+		matches, _ := filepath.Glob(filepath.Join(s.dir, "*.go"))
+		sort.Strings(matches)
+		for _, m := range matches {
+			if strings.HasSuffix(m, "_test.go") || hasBuildTag(m) {
+				continue
+			}
+			f, perr := parser.ParseFile(fset, m, nil, 0)
+			if perr != nil {
+				return nil, nil, perr
+			}
+			for _, d := range f.Decls {
+				if fd, ok := d.(*ast.FuncDecl); ok && fd.Body != nil {
+					decls = append(decls, struct {
+						prefix string
+						fd     *ast.FuncDecl
+					}{s.prefix, fd})
+					known[funcKey(s.prefix, fd)] = true
+				}
+			}
+		}
+	}
+	for _, d := range decls {
+		infos[funcKey(d.prefix, d.fd)] = allocInfo(d.prefix, d.fd, known)
+	}
+	seen := map[string]bool{}
+	var visit func(k string)
+	visit = func(k string) {
+		if seen[k] || !known[k] {
+			return
+		}
+		seen[k] = true
+		for _, c := range infos[k].calls {
+			visit(c)
+		}
+	}
+	for _, r := range zeroAllocRoots {
+		visit(r)
+	}
+	for k := range seen {
+		reach = append(reach, k)
+		for _, s := range infos[k].sites {
+			sites = append(sites, k+" | "+s)
+		}
+	}
+	sort.Strings(reach)
+	sort.Strings(sites)
+	// collapse repetitions: "site (xN)"
+	var out []string
+	for i := 0; i < len(sites); {
+		j := i
+		for j < len(sites) && sites[j] == sites[i] {
+			j++
+		}
+		if j-i > 1 {
+			out = append(out, fmt.Sprintf("%s (x%d)", sites[i], j-i))
+		} else {
+			out = append(out, sites[i])
+		}
+		i = j
+	}
+	return reach, out, nil
+}
+
 func main() {
 	repo := flag.String("repo", "/repo", "repository root")
 	out := flag.String("out", "/verif/lean/RJson/Gen/Facts.lean", "output file")
@@ -346,6 +519,13 @@ func main() {
 	b.WriteString("]\n")
 	canonicalNOB := "{ p, err = ReadNull(data) if err != nil { return 0, origErr } return p, nil }"
 	fmt.Fprintf(&b, "/-- nullOrBust has the canonical body -/\ndef nullOrBustCanonical : Bool := %v\n", nullOrBust == canonicalNOB)
+	reach, sites, aerr := allocFacts(*repo)
+	if aerr != nil {
+		fmt.Fprintln(os.Stderr, aerr)
+		os.Exit(2)
+	}
+	fmt.Fprintf(&b, "\n/-- functions (syntactically) reachable from the entry points of C19 -/\ndef zeroAllocReach : List String := %s\n", leanList(reach))
+	fmt.Fprintf(&b, "/-- every construct in those functions that may allocate: make/new/append, composite literals, conversions to string / []byte,\n    closures, defer, go, calls into fmt/errors/strings/bytes/strconv (function | kind:source) -/\ndef zeroAllocSites : List String := %s\n", leanList(sites))
 	b.WriteString("\nend RJson.Gen.Facts\n")
 	old, err := os.ReadFile(*out)
 	if err == nil && string(old) == b.String() {
